@@ -1,6 +1,7 @@
 import PhysisModel.Base.Proto
 import PhysisModel.Spec.Excel
 import PhysisModel.Model.Exd
+import PhysisModel.Model.ExcelRootList
 /-!
 Driver for C05.  Case grammar (single spaces, `-` = empty list):
 
@@ -13,6 +14,8 @@ Driver for C05.  Case grammar (single spaces, `-` = empty list):
 * `exh <sub> <version> <dataOffset> <cols> <pages> <langs> <rowCount>` — header round trip; answer
   `<dataOffset> <rowCount> <cols> <pages> <langs>` (the public fields)
 * `fname <name hex> <lang code> <start id>` — page file name, as hex
+* `names <version> <name hex>:<id>,…` — root list; input `exl <hex of encodeRootList>`; answer
+  `<version> <name hex>:<id>,…` (what `get_all_sheet_names` / `read_excel_sheet_header` iterate over)
 -/
 namespace Physis.Driver.C05
 open Physis Physis.Proto Physis.Spec.Excel
@@ -175,6 +178,19 @@ def handle (line : String) : String :=
         | none => "none"
       answer "=" (Bytes.toHex expected) [] (some model)
     | _, _, _ => bad
+  | ["names", ver, ents] =>
+    match ver.toInt?, (splitList ents ",").mapM (fun e => do
+        let (n, i) ← pair e ":"
+        some ((← Bytes.ofHexFast n), (← i.toInt?))) with
+    | some v, some es =>
+      if decide (WFrootList v es) then
+        let showEs := fun (l : List (Bytes × Int)) =>
+          if l.isEmpty then "-" else ",".intercalate (l.map (fun e => s!"{Bytes.toHex e.1}:{e.2}"))
+        let m := ExcelRootList.fromExisting (encodeRootList v es)
+        answer s!"exl {Bytes.toHex (encodeRootList v es)}" s!"{v} {showEs es}" []
+          (some s!"{m.version} {showEs m.entries}")
+      else bad
+    | _, _ => bad
   | _ => bad
 
 end Physis.Driver.C05
